@@ -234,4 +234,472 @@ theorem stepSeg_tl_false (s : ESeg) (rest : List ESeg) (n : Node) (c : Ctx) :
   | _ => cases n <;> simp [stepSeg, direct]
 
 end Eval
+
+/-! ## No crash outcome is reachable (C15) -/
+
+/-- The generator does not end in a Python exception outside the YAML Path family. -/
+def Gen.NoCrash {α : Type} (g : Gen α) : Prop := ∀ e, g.2 = some e → e.isCrash = false
+
+/-- The matcher raises only non-crash outcomes. -/
+def MtSafe (mt : Matcher) : Prop := ∀ m n t e, mt m n t = .error e → e.isCrash = false
+
+/-- The evaluation of attribute paths raises only non-crash outcomes. -/
+def DscSafe (dsc : Desc) : Prop := ∀ a n c, (dsc a n c).NoCrash
+
+namespace Gen
+variable {α β γ : Type}
+
+theorem noCrash_nil : (nil : Gen α).NoCrash := by intro e h; simp [nil] at h
+theorem noCrash_one (x : α) : (one x).NoCrash := by intro e h; simp [one] at h
+theorem noCrash_ofList (l : List α) : (ofList l).NoCrash := by intro e h; simp [ofList] at h
+theorem noCrash_fail {e : Err} (h : e.isCrash = false) : (fail e : Gen α).NoCrash := by
+  intro e' h'; simp [fail] at h'; subst h'; exact h
+
+theorem noCrash_append {g h : Gen α} (hg : g.NoCrash) (hh : h.NoCrash) : (append g h).NoCrash := by
+  obtain ⟨l, e⟩ := g
+  cases e with
+  | none => intro e he; simp [append] at he; exact hh e he
+  | some x => simpa [append] using hg
+
+theorem noCrash_bindList {f : α → Gen β} (l : List α) (h : ∀ x ∈ l, (f x).NoCrash) : (bindList f l).NoCrash := by
+  induction l with
+  | nil => exact noCrash_nil
+  | cons x xs ih =>
+    exact noCrash_append (h x (by simp)) (ih (fun y hy => h y (by simp [hy])))
+
+theorem noCrash_bind {g : Gen α} {f : α → Gen β} (hg : g.NoCrash) (h : ∀ x, (f x).NoCrash) : (bind g f).NoCrash := by
+  refine noCrash_append (noCrash_bindList _ (fun x _ => h x)) ?_
+  intro e he
+  exact hg e he
+
+theorem noCrash_map {g : Gen α} (f : α → β) (hg : g.NoCrash) : (map f g).NoCrash := hg
+
+theorem noCrash_filterFirst {p : α → Gen β} (l : List α) (h : ∀ x ∈ l, (p x).NoCrash) : (filterFirst p l).NoCrash := by
+  induction l with
+  | nil => exact noCrash_nil
+  | cons x xs ih =>
+    have ih' := ih (fun y hy => h y (by simp [hy]))
+    simp only [filterFirst]
+    match hp : p x with
+    | (y :: ys, e) => exact noCrash_append (noCrash_one x) ih'
+    | ([], some e) =>
+      have := h x (by simp) e (by simp [hp])
+      exact noCrash_fail this
+    | ([], none) => exact ih'
+
+theorem noCrash_ifAny {g : Gen β} (x : α) (hg : g.NoCrash) : (ifAny g x).NoCrash := by
+  match g, hg with
+  | (y :: ys, e), _ => exact noCrash_one x
+  | ([], some e), hg => exact noCrash_fail (hg e rfl)
+  | ([], none), _ => exact noCrash_nil
+
+end Gen
+
+namespace Eval
+open Gen
+
+/-- Behind the guard `-len(data) <= i < len(data)` Python's `data[i]` cannot raise. -/
+theorem pyGetItem_inRange {α : Type} (l : List α) (i : Int) (h : inRange l.length i = true) :
+    ∃ x, pyGetItem l i = .ok x := by
+  simp only [inRange, Bool.and_eq_true, decide_eq_true_eq] at h
+  unfold pyGetItem
+  simp only []
+  by_cases hi : i < 0
+  · simp only [hi, if_true]
+    have h1 : ¬ (i + (l.length : Int) < 0) := by omega
+    simp only [h1, if_false]
+    have h2 : (i + (l.length : Int)).toNat < l.length := by omega
+    simp [List.getElem?_eq_getElem h2]
+  · simp only [hi, if_false]
+    have h2 : i.toNat < l.length := by omega
+    simp [List.getElem?_eq_getElem h2]
+
+theorem noCrash_elemAt (items : List Node) (i : Int) (c : Ctx) : (elemAt items i c).NoCrash := by
+  unfold elemAt
+  by_cases h : inRange items.length i = true
+  · obtain ⟨x, hx⟩ := pyGetItem_inRange items i h
+    simp only [h, if_true, hx]
+    exact noCrash_one _
+  · simp only [h]
+    exact noCrash_nil
+
+theorem noCrash_keyOnMap (k : Str) (es : List (Key × Node)) (c : Ctx) : (keyOnMap k es c).NoCrash := by
+  unfold keyOnMap
+  split
+  · exact noCrash_one _
+  · split
+    · split
+      · exact noCrash_one _
+      · exact noCrash_nil
+    · exact noCrash_nil
+
+theorem noCrash_keyOnSet (k : Str) (ms : List Key) (c : Ctx) : (keyOnSet k ms c).NoCrash := by
+  unfold keyOnSet
+  split
+  · exact noCrash_one _
+  · exact noCrash_nil
+
+mutual
+theorem noCrash_keyStep (k : Str) (tl : Bool) : (n : Node) → (c : Ctx) → (keyStep k tl n c).NoCrash
+  | .map _ es, c => by simp only [keyStep]; exact noCrash_keyOnMap k es c
+  | .set _ ms, c => by simp only [keyStep]; exact noCrash_keyOnSet k ms c
+  | .scalar .., c => by simp only [keyStep]; exact noCrash_nil
+  | .seq _ items, c => by
+      simp only [keyStep]
+      split
+      · exact noCrash_elemAt _ _ _
+      · split
+        · exact noCrash_passThrough k tl c items 0
+        · exact noCrash_nil
+theorem noCrash_passThrough (k : Str) (tl : Bool) (c : Ctx) :
+    (items : List Node) → (i : Nat) → (keyStep.passThrough k tl c items i).NoCrash
+  | [], _ => by simp only [keyStep.passThrough]; exact noCrash_nil
+  | n :: ns, i => by
+      simp only [keyStep.passThrough]
+      exact noCrash_append (noCrash_keyStep k tl n _) (noCrash_passThrough k tl c ns (i + 1))
+end
+
+theorem noCrash_indexStep (i : Int) (n : Node) (c : Ctx) : (indexStep i n c).NoCrash := by
+  cases n <;> simp only [indexStep]
+  · exact noCrash_nil
+  · exact noCrash_elemAt _ _ _
+  · exact noCrash_nil
+  · exact noCrash_fail rfl
+
+theorem sliceStart_le (len : Nat) (i : Int) : sliceStart len i ≤ len := by
+  unfold sliceStart
+  split
+  · split
+    · omega
+    · omega
+  · split
+    · omega
+    · omega
+
+theorem sliceIndices_lt (len : Nat) (lo hi : Int) : ∀ j ∈ sliceIndices len lo hi, j < len := by
+  intro j hj
+  simp only [sliceIndices, List.mem_map, List.mem_range] at hj
+  obtain ⟨k, hk, rfl⟩ := hj
+  have := sliceStart_le len hi
+  omega
+
+theorem sliceItems_ok (items : List Node) (c : Ctx) :
+    ∀ (ixs : List Nat), (∀ j ∈ ixs, j < items.length) → ∃ l, sliceItems items c ixs = .ok l := by
+  intro ixs
+  induction ixs with
+  | nil => intro _; exact ⟨[], rfl⟩
+  | cons j js ih =>
+    intro h
+    obtain ⟨l, hl⟩ := ih (fun k hk => h k (by simp [hk]))
+    have hj : j < items.length := h j (by simp)
+    obtain ⟨x, hx⟩ := pyGetItem_inRange items (Int.ofNat j) (by
+      simp only [inRange, Bool.and_eq_true, decide_eq_true_eq, Int.ofNat_eq_natCast]
+      constructor <;> omega)
+    refine ⟨(x, c.child (.idx j) (.idx (Int.ofNat j)) (idxSection (Int.ofNat j))) :: l, ?_⟩
+    unfold sliceItems at hl ⊢
+    rw [List.mapM_cons, hl, hx]
+    rfl
+
+theorem noCrash_sliceOnSeq (lo hi : Str) (items : List Node) (c : Ctx) : (sliceOnSeq lo hi items c).NoCrash := by
+  unfold sliceOnSeq
+  split
+  · rename_i a b _ _
+    split
+    · rename_i h
+      obtain ⟨x, hx⟩ := pyGetItem_inRange items a h.2
+      simp only [hx]
+      exact noCrash_one _
+    · obtain ⟨l, hl⟩ := sliceItems_ok items c _ (sliceIndices_lt items.length a b)
+      simp only [hl]
+      exact noCrash_one _
+  · exact noCrash_fail rfl
+
+theorem noCrash_sliceOnMap (lo hi : Str) (c : Ctx) : (es : List (Key × Node)) → (sliceOnMap lo hi c es).NoCrash
+  | [] => noCrash_nil
+  | (k, v) :: es => by
+    simp only [sliceOnMap, pyKeyBetween]
+    split
+    · exact noCrash_append (noCrash_one _) (noCrash_sliceOnMap lo hi c es)
+    · exact noCrash_sliceOnMap lo hi c es
+    · rename_i h; simp at h
+
+theorem noCrash_sliceOnSet (lo hi : Str) (c : Ctx) : (ms : List Key) → (sliceOnSet lo hi c ms).NoCrash
+  | [] => noCrash_nil
+  | k :: ks => by
+    simp only [sliceOnSet, pyKeyBetween]
+    split
+    · exact noCrash_append (noCrash_one _) (noCrash_sliceOnSet lo hi c ks)
+    · exact noCrash_sliceOnSet lo hi c ks
+    · rename_i h; simp at h
+
+theorem noCrash_sliceStep (lo hi : Str) (n : Node) (c : Ctx) : (sliceStep lo hi n c).NoCrash := by
+  cases n <;> simp only [sliceStep]
+  · exact noCrash_nil
+  · exact noCrash_sliceOnSeq _ _ _ _
+  · exact noCrash_map _ (noCrash_sliceOnMap _ _ _ _)
+  · exact noCrash_map _ (noCrash_sliceOnSet _ _ _ _)
+
+theorem noCrash_anchorStep (a : Str) (n : Node) (c : Ctx) : (anchorStep a n c).NoCrash := by
+  unfold anchorStep
+  split
+  · exact noCrash_nil
+  · exact noCrash_ofList _
+
+variable {mt : Matcher} {dsc : Desc}
+
+theorem noCrash_yieldIf (hmt : MtSafe mt) (inv : Bool) (m : Method) (n : Node) (t : Str) (x : NC) :
+    (yieldIf inv (mt m n t) x).NoCrash := by
+  unfold yieldIf
+  split
+  · split
+    · exact noCrash_one _
+    · exact noCrash_nil
+  · rename_i e he
+    exact noCrash_fail (hmt _ _ _ _ he)
+
+/-- An outcome that is a value or a non-crash error. -/
+def SafeR (r : Except Err Bool) : Prop := ∀ e, r = .error e → e.isCrash = false
+
+theorem noCrash_yieldIf' (inv : Bool) (r : Except Err Bool) (x : NC) (h : SafeR r) : (yieldIf inv r x).NoCrash := by
+  unfold yieldIf
+  split
+  · split
+    · exact noCrash_one _
+    · exact noCrash_nil
+  · rename_i e
+    exact noCrash_fail (h e rfl)
+
+theorem safe_descFirst (hmt : MtSafe mt) (m : Method) (t : Str) (g : Gen Res) (hg : g.NoCrash) :
+    SafeR (descFirst mt m t g) := by
+  intro e he
+  unfold descFirst at he
+  split at he
+  · exact hmt _ _ _ _ he
+  · cases he; rfl
+  · rename_i e'
+    cases he
+    exact hg _ rfl
+  · cases he
+
+/-- In an Array-of-Hashes (nulls accepted) every element is a dict or null. -/
+def AohOk (aoh : Bool) (l : List NC) : Prop :=
+  aoh = true → ∀ x ∈ l, x.1.isNull = true ∨ ∃ a es, x.1 = .map a es
+
+theorem aohOk_seqKids (c : Ctx) : ∀ (items : List Node) (i : Nat), AohOk (isAoh items) (seqKidsFrom c items i) := by
+  intro items
+  induction items with
+  | nil => intro i _ x hx; simp [seqKidsFrom] at hx
+  | cons n ns ih =>
+    intro i h x hx
+    simp only [isAoh, List.all_cons, Bool.and_eq_true] at h
+    simp only [seqKidsFrom, List.mem_cons] at hx
+    cases hx with
+    | inl hx =>
+      subst hx
+      cases n with
+      | map a es => exact Or.inr ⟨a, es, rfl⟩
+      | scalar a v => cases v <;> simp_all [Node.isNull]
+      | seq => simp at h
+      | set => simp at h
+    | inr hx => exact ih (i + 1) (by simpa [isAoh] using h.2) x hx
+
+theorem safe_searchElem (hmt : MtSafe mt) (hd : DscSafe dsc) (m : Method) (attr term : Str) (aoh : Bool) (x : NC)
+    (hx : aoh = true → x.1.isNull = true ∨ ∃ a es, x.1 = .map a es) :
+    SafeR (searchElem mt dsc m attr term aoh x) := by
+  intro e he
+  unfold searchElem at he
+  split at he
+  · split at he
+    · rename_i hcond
+      simp only [Bool.and_eq_true, Bool.not_eq_true'] at hcond
+      cases hx hcond.1 with
+      | inl hn => simp [hn] at hcond
+      | inr hm =>
+        obtain ⟨a, es, hxe⟩ := hm
+        rw [hxe] at he
+        simp only [pyIn] at he
+        split at he
+        · cases he
+        · exact hmt _ _ _ _ he
+        · rename_i h; cases h
+    · exact hmt _ _ _ _ he
+  · split at he
+    · split at he
+      · exact hmt _ _ _ _ he
+      · exact safe_descFirst hmt m term _ (hd _ _ _) e he
+    · exact safe_descFirst hmt m term _ (hd _ _ _) e he
+
+theorem noCrash_searchList (hmt : MtSafe mt) (hd : DscSafe dsc) (inv : Bool) (m : Method) (attr term : Str) (aoh : Bool) :
+    ∀ (l : List NC), AohOk aoh l → (searchList mt dsc inv m attr term aoh l).NoCrash := by
+  intro l
+  induction l with
+  | nil => intro _; exact noCrash_nil
+  | cons x xs ih =>
+    intro h
+    simp only [searchList]
+    refine noCrash_append (noCrash_yieldIf' _ _ _ (safe_searchElem hmt hd m attr term aoh x (fun ha => h ha x (by simp)))) ?_
+    exact ih (fun ha y hy => h ha y (by simp [hy]))
+
+theorem noCrash_searchNames (hmt : MtSafe mt) (inv : Bool) (m : Method) (term : Str) :
+    ∀ (l : List (Key × NC)), (searchNames mt inv m term l).NoCrash := by
+  intro l
+  induction l with
+  | nil => exact noCrash_nil
+  | cons x xs ih =>
+    obtain ⟨k, y⟩ := x
+    simp only [searchNames]
+    exact noCrash_append (noCrash_yieldIf hmt _ _ _ _ _) ih
+
+theorem safe_descAny (hmt : MtSafe mt) (inv : Bool) (m : Method) (term : Str) :
+    ∀ (l : List Res) (e : Option Err) (seen : Bool), (∀ x, e = some x → x.isCrash = false) →
+      SafeR (descAny mt inv m term l e seen) := by
+  intro l
+  induction l with
+  | nil =>
+    intro e seen he x hx
+    cases e with
+    | none => simp [descAny] at hx
+    | some y => simp only [descAny] at hx; cases hx; exact he _ rfl
+  | cons r rs ih =>
+    intro e seen he x hx
+    cases r with
+    | virt items => simp only [descAny] at hx; cases hx; rfl
+    | real nc =>
+      obtain ⟨n, c⟩ := nc
+      simp only [descAny] at hx
+      split at hx
+      · split at hx
+        · cases hx
+        · exact ih e true he x hx
+      · rename_i e' he'
+        cases hx
+        exact hmt _ _ _ _ he'
+
+theorem noCrash_searchMap (hmt : MtSafe mt) (hd : DscSafe dsc) (inv : Bool) (m : Method) (attr term : Str)
+    (a : Option Str) (es : List (Key × Node)) (c : Ctx) : (searchMap mt dsc inv m attr term a es c).NoCrash := by
+  unfold searchMap
+  split
+  · exact noCrash_searchNames hmt _ _ _ _
+  · split
+    · exact noCrash_yieldIf hmt _ _ _ _ _
+    · simp only []
+      have := safe_descAny hmt inv m term (dsc attr (.map a es) c).1 (dsc attr (.map a es) c).2 false (hd _ _ _)
+      split
+      · exact noCrash_one _
+      · exact noCrash_nil
+      · rename_i e he
+        exact noCrash_fail (this e he)
+
+theorem noCrash_searchStep (hmt : MtSafe mt) (hd : DscSafe dsc) (inv : Bool) (m : Method) (attr term : Str) (tl : Bool)
+    (n : Node) (c : Ctx) : (searchStep mt dsc inv m attr term tl n c).NoCrash := by
+  cases n with
+  | scalar a v => simp only [searchStep]; exact noCrash_yieldIf hmt _ _ _ _ _
+  | seq a items =>
+    simp only [searchStep]
+    split
+    · exact noCrash_searchList hmt hd _ _ _ _ _ _ (aohOk_seqKids c items 0)
+    · exact noCrash_nil
+  | map a es => simp only [searchStep]; exact noCrash_searchMap hmt hd _ _ _ _ _ _ _
+  | set a ms => simp only [searchStep]; exact noCrash_searchNames hmt _ _ _ _
+
+theorem noCrash_leafAt (n : Node) (c : Ctx) : (leafAt n c).NoCrash := by
+  cases n <;> simp only [leafAt]
+  · exact noCrash_one _
+  · exact noCrash_nil
+  · exact noCrash_nil
+  · exact noCrash_ofList _
+
+theorem noCrash_walk {f : Node → Ctx → Gen NC} (hf : ∀ n c, (f n c).NoCrash) (n : Node) (c : Ctx) :
+    (walk f n c).NoCrash := by
+  rw [walk_eq]
+  exact noCrash_bindList _ (fun x _ => hf x.1 x.2)
+
+/-- Every handler of the dispatcher ends without a crash outcome. -/
+theorem noCrash_stepSeg (hmt : MtSafe mt) (hd : DscSafe dsc) :
+    ∀ (rest : List ESeg) (s : ESeg) (tl : Bool) (n : Node) (c : Ctx), (stepSeg mt dsc s rest tl n c).NoCrash := by
+  intro rest
+  induction rest with
+  | nil =>
+    intro s tl n c
+    cases s <;> simp only [stepSeg]
+    · exact noCrash_map _ (noCrash_keyStep _ _ _ _)
+    · exact noCrash_map _ (noCrash_indexStep _ _ _)
+    · exact noCrash_sliceStep _ _ _ _
+    · exact noCrash_map _ (noCrash_anchorStep _ _ _)
+    · exact noCrash_map _ (noCrash_searchStep hmt hd _ _ _ _ _ _ _)
+    · exact noCrash_ofList _
+    · exact noCrash_map _ (noCrash_walk noCrash_leafAt _ _)
+    · exact noCrash_fail rfl
+    · exact noCrash_fail rfl
+    · exact noCrash_fail rfl
+  | cons nxt rest' ih =>
+    intro s tl n c
+    cases s <;> simp only [stepSeg]
+    · exact noCrash_map _ (noCrash_keyStep _ _ _ _)
+    · exact noCrash_map _ (noCrash_indexStep _ _ _)
+    · exact noCrash_sliceStep _ _ _ _
+    · exact noCrash_map _ (noCrash_anchorStep _ _ _)
+    · exact noCrash_map _ (noCrash_searchStep hmt hd _ _ _ _ _ _ _)
+    · exact noCrash_map _ (noCrash_filterFirst _ (fun x _ => ih nxt true x.1 x.2))
+    · refine noCrash_map _ (noCrash_walk (fun m cm => noCrash_ifAny _ ?_) _ _)
+      unfold recursionGuard
+      split
+      · exact noCrash_fail rfl
+      · exact ih nxt false m cm
+    · exact noCrash_fail rfl
+    · exact noCrash_fail rfl
+    · exact noCrash_fail rfl
+
+theorem noCrash_stepVirt (seg : ESeg) (items : List NC) : (stepVirt seg items).NoCrash := by
+  unfold stepVirt
+  split
+  · split
+    · exact noCrash_map _ (noCrash_bindList _ (fun x _ => noCrash_keyStep _ _ _ _))
+    · exact noCrash_fail rfl
+  · exact noCrash_fail rfl
+
+theorem noCrash_stepRes (hmt : MtSafe mt) (hd : DscSafe dsc) (s : ESeg) (rest : List ESeg) (r : Res) :
+    (stepRes mt dsc s rest r).NoCrash := by
+  cases r with
+  | real nc => exact noCrash_stepSeg hmt hd rest s true nc.1 nc.2
+  | virt items => exact noCrash_stepVirt s items
+
+theorem noCrash_required (hmt : MtSafe mt) (hd : DscSafe dsc) :
+    ∀ (segs : List ESeg) (r : Res), (required mt dsc segs r).NoCrash := by
+  intro segs
+  induction segs with
+  | nil => intro r; exact noCrash_one r
+  | cons s rest ih =>
+    intro r
+    exact noCrash_bind (noCrash_stepRes hmt hd s rest r) ih
+
+theorem noCrash_optional (hmt : MtSafe mt) (hd : DscSafe dsc) :
+    ∀ (segs : List ESeg) (r : Res), (Eval.optional mt dsc segs r).NoCrash := by
+  intro segs
+  induction segs with
+  | nil => intro r; exact noCrash_one r
+  | cons s rest ih =>
+    intro r
+    simp only [Eval.optional]
+    refine noCrash_append (noCrash_bind (noCrash_stepRes hmt hd s rest r) (fun x => ?_)) ?_
+    · split
+      · exact noCrash_one _
+      · exact ih x
+    · split
+      · exact noCrash_fail rfl
+      · exact noCrash_nil
+
+end Eval
+
+theorem dscSafe_none : DscSafe Desc.none := fun _ _ _ => Gen.noCrash_fail rfl
+
+theorem dscSafe_ofParser {mt : Matcher} (hmt : MtSafe mt) (pa : Str → Except Err (List ESeg))
+    (hpa : ∀ a e, pa a = .error e → e.isCrash = false) : DscSafe (Desc.ofParser mt pa) := by
+  intro a n c
+  unfold Desc.ofParser
+  split
+  · exact Eval.noCrash_required hmt dscSafe_none _ _
+  · rename_i e he
+    exact Gen.noCrash_fail (hpa a e he)
+
 end Ypv
